@@ -161,6 +161,34 @@ fn run_schedule(cx: &mut Ctx, ex: &Exchange, r: &mut Rng, mode: usize) {
     cx.meta(&format!("consumed {}", soff));
 }
 
+/// the same exchange through the caller loop of the composition theorems (`xrun`, Lean `xRun`): one op
+/// carries payload, server stream and the whole schedule of (bytes presented, buffer size, give-up) triples
+fn run_xrun(cx: &mut Ctx, ex: &Exchange, r: &mut Rng, mode: usize) {
+    if cx.rec.new_flow(&ex.req) != "ok" { return; }
+    let total = ex.stream.len() + ex.payload.len() + 40;
+    let steps = match mode { 0 => 12, 1 => 3 * total + 200, _ => total + 200 };
+    let mut sched = String::new();
+    for i in 0..steps {
+        let (m, cap) = match mode {
+            0 => (100000, 100000),
+            1 => (i / 2, 41 + (i % 3)),                               // bytes trickle in; a buffer that just fits a head line
+            2 => (r.below(ex.stream.len() + 2), *r.pick(&[41usize, 50, 64, 128, 1000])),
+            _ => (i * (1 + r.below(3)), r.range(41, 300)),
+        };
+        let give = match mode { 0 => false, 1 => i == 30, _ => r.chance(1, 40) };
+        sched.push_str(&format!(" {}:{}:{}", m, cap, if give { 1 } else { 0 }));
+    }
+    // the messages of this exchange only: what follows belongs to the next exchange and must stay untouched
+    cx.op(&format!("xrun {} {}{}", hx(&ex.payload), hx(&ex.stream), sched));
+    for _ in 0..2 {
+        match cx.rec.state() {
+            "redirect" => { cx.op("status"); cx.op("close?"); cx.op("reason"); cx.op("proceed"); }
+            "cleanup" => { cx.op("close?"); cx.op("reason"); break; }
+            _ => break,
+        }
+    }
+}
+
 pub fn c01(cx: &mut Ctx) {
     let groups = if cx.thorough { 1500 } else { 150 };
     let schedules = if cx.thorough { 24 } else { 12 };
@@ -173,6 +201,16 @@ pub fn c01(cx: &mut Ctx) {
             cx.meta(&format!("msglen {}", ex.msglen));
             cx.meta(&format!("payload {}", hx(&ex.payload)));
             run_schedule(cx, &ex, &mut r, s % 5);
+        }
+        // 3xx heads with Location are excluded here: an arrival that stops after the Location line is D10 (C05)
+        if ex.forbid.is_none() {
+            for s in 0..4 {
+                let mut r = cx.case("xr");
+                cx.meta(&format!("group x{}", g));
+                cx.meta(&format!("msglen {}", ex.msglen));
+                cx.meta(&format!("payload {}", hx(&ex.payload)));
+                run_xrun(cx, &ex, &mut r, s);
+            }
         }
     }
 }
